@@ -7,11 +7,13 @@ CONSTANTS
   UseScan = "all"
   AddRollback = TRUE
   NsEmptyQuals = TRUE
-  NsArgs = {0, 1, 2, 3}
-  NsAdm = {0, 1, 2, 3}
-  QU = {1, 2}
+  AddTypeError = TRUE
+  NsArgs = {0, 2, 3}
+  CompileNs = {0, 2, 3}
+  NsAdm = {0, 1, 2}
+  QU = {1, 2, 3}
   DU = {"d1", "d2"}
-  ClsU = {"U", "V"}
+  ClsU = {"U"}
   BadArgs = {"none", "badtype"}
   MaxItems = 2
   MaxCompile = 2
